@@ -27,7 +27,9 @@ from typing import ClassVar
 
 from numpy import abs as np_abs
 from numpy import concatenate
+from numpy import isfinite
 from numpy import ndarray
+from numpy import where
 from numpy import zeros
 
 from gemseo.core.chains.parallel_chain import MDOParallelChain
@@ -151,6 +153,11 @@ class IDF(BaseMDOFormulation):
     ) -> ndarray:
         """Compute [abs(ub-lb)] for all output couplings.
 
+        The components of a coupling variable
+        that are not bounded both from above and from below
+        are not normalized (their normalization factor is 1),
+        as in the normalization of a design space.
+
         Args:
             output_couplings: The names of the variables for normalization.
 
@@ -161,7 +168,8 @@ class IDF(BaseMDOFormulation):
         for output in output_couplings:
             u_b = self.optimization_problem.design_space.get_upper_bound(output)
             l_b = self.optimization_problem.design_space.get_lower_bound(output)
-            norm_fact.append(np_abs(u_b - l_b))
+            width = np_abs(u_b - l_b)
+            norm_fact.append(where(isfinite(width), width, 1.0))
         return concatenate(norm_fact)
 
     def _build_constraints(self) -> None:
